@@ -640,14 +640,16 @@ void submatrix_dense(const DenseMatrix &A, DenseMatrix &B, unsigned row_start,
     SYMENGINE_ASSERT(row_end >= row_start and col_end >= col_start);
     SYMENGINE_ASSERT(row_end < A.row_);
     SYMENGINE_ASSERT(col_end < A.col_);
-    SYMENGINE_ASSERT(B.row_ == row_end - row_start + 1
-                     and B.col_ == col_end - col_start + 1);
+    SYMENGINE_ASSERT(row_step > 0 and col_step > 0);
+    SYMENGINE_ASSERT(B.row_ == (row_end - row_start) / row_step + 1
+                     and B.col_ == (col_end - col_start) / col_step + 1);
 
     unsigned row = B.row_, col = B.col_;
 
-    for (unsigned i = 0; i < row; i += row_step)
-        for (unsigned j = 0; j < col; j += col_step)
-            B.m_[i * col + j] = A.m_[(row_start + i) * A.col_ + col_start + j];
+    for (unsigned i = 0; i < row; i++)
+        for (unsigned j = 0; j < col; j++)
+            B.m_[i * col + j] = A.m_[(row_start + i * row_step) * A.col_
+                                     + col_start + j * col_step];
 }
 
 // ------------------------------- Matrix Addition ---------------------------//
